@@ -30,6 +30,7 @@ type Host struct {
 type G struct {
 	Op   string `json:"op"` // guard dial get redirect
 	Host int    `json:"host"`
+	TLS  bool   `json:"tls,omitempty"` // https endpoint
 }
 
 type C38Case struct {
@@ -104,6 +105,17 @@ func genC38(r *kit.Rand, tier kit.Tier) C38Case {
 				h.Rounds = append(h.Rounds, round)
 			}
 
+			// a resolver fault (SERVFAIL: a temporary failure to the Go resolver) in
+			// place of one answer, most usefully right before the rebind
+			if r.Chance(1, 4) {
+				at := r.Intn(len(h.Rounds) + 1)
+				if rebindToLoopback && len(h.Rounds) > 1 {
+					at = len(h.Rounds) - 1
+				}
+
+				h.Rounds = append(h.Rounds[:at], append([][]string{{servfailRound}}, h.Rounds[at:]...)...)
+			}
+
 			c.Hosts = append(c.Hosts, h)
 		}
 	}
@@ -116,11 +128,13 @@ func genC38(r *kit.Rand, tier kit.Tier) C38Case {
 	}
 
 	for i := 0; i < n; i++ {
-		c.Ops = append(c.Ops, G{Op: ops[r.Intn(len(ops))], Host: r.Intn(len(c.Hosts))})
+		c.Ops = append(c.Ops, G{Op: ops[r.Intn(len(ops))], Host: r.Intn(len(c.Hosts)), TLS: r.Chance(1, 3)})
 	}
 
 	return c
 }
+
+const servfailRound = "!servfail"
 
 type trap struct {
 	mu   sync.Mutex
@@ -209,6 +223,11 @@ func execC38(c C38Case, _ *kit.Env) kit.Outcome {
 		for _, rd := range h.Rounds {
 			var l []netip.Addr
 			for _, a := range rd {
+				if a == servfailRound {
+					l = []netip.Addr{{}} // a resolver fault instead of an answer
+					break
+				}
+
 				l = append(l, netip.MustParseAddr(a))
 			}
 
@@ -231,6 +250,10 @@ func execC38(c C38Case, _ *kit.Env) kit.Outcome {
 
 		var l []netip.Addr
 		for _, a := range h.Rounds[k] {
+			if a == servfailRound {
+				return nil
+			}
+
 			l = append(l, netip.MustParseAddr(a))
 		}
 
@@ -261,7 +284,12 @@ func execC38(c C38Case, _ *kit.Env) kit.Outcome {
 		h := c.Hosts[op.Host]
 		answers := nextAnswers(h)
 		bad, hasInternal := anyInternal(answers)
-		target := fmt.Sprintf("http://%s:%d/v1/chat/completions", hostText(h), tp.port)
+		scheme := "http"
+		if op.TLS {
+			scheme = "https"
+		}
+
+		target := fmt.Sprintf("%s://%s:%d/v1/chat/completions", scheme, hostText(h), tp.port)
 		what := fmt.Sprintf("op #%d %s %s (this resolution answers %v)", oi, op.Op, hostText(h), answers)
 
 		if h.Name != "" && dns.lookups(h.Name) > 0 && len(h.Rounds) > 1 {
@@ -335,6 +363,17 @@ func execC38(c C38Case, _ *kit.Env) kit.Outcome {
 
 	out.Steps = uint64(len(c.Ops))
 	out.Fault("dns-answer-changes-between-lookups", rebinds)
+
+	fails := 0
+	for _, h := range c.Hosts {
+		for k, rd := range h.Rounds {
+			if len(rd) == 1 && rd[0] == servfailRound && h.Name != "" && dns.lookups(h.Name) > k {
+				fails++
+			}
+		}
+	}
+
+	out.Fault("dns-servfail", fails)
 	out.Probe("internal-destinations-refused", refusals)
 	out.Probe("dns-queries-served", dns.Queries)
 	out.NonTrivial = refusals >= 1
@@ -352,7 +391,7 @@ func init() {
 		Assumptions: []string{"the process resolver is Go's pure resolver pointed at the scripted server (the guard's own calls to net.LookupIP / net.DefaultResolver are unchanged)", "public addresses are unreachable in the sandbox, so a permitted dial fails with a network error; only refusals are judged", "DAISEN_ALLOW_PRIVATE_LLM_URL and the proxy variables are unset"},
 		Real:        []string{"daisen2/internal/httpapi/chat.go (guardLLMURL, guardedDialContext, guardedLLMClient, CheckRedirect)", "net/http transport", "Go resolver"},
 		Stubs:       []string{"scripted DNS server on a loopback UDP socket", "loopback TCP listeners as connection traps"},
-		FaultKinds:  []string{"dns-answer-changes-between-lookups"},
+		FaultKinds:  []string{"dns-answer-changes-between-lookups", "dns-servfail"},
 		Quick:       kit.Budget{Runs: 600, WallS: 120, CaseS: 120},
 		Thorough:    kit.Budget{Runs: 60000, WallS: 1200, CaseS: 300},
 		Gen:         genC38, Exec: execC38,
